@@ -177,8 +177,9 @@ def h_loop(ctx, il, n0, lm, bound, passes=MAX_PASSES):
     finally:
         logging.getLogger().removeHandler(hnd)
     info = {"il": il, "n0": n0, "lm": lm, "passes": len(crit.ns_calls)}
-    rp = (replay_exit, _scenario(ctx, crit, il, n0, lm, bound))
-    ctx.prove("C06.never_simulates_above_maximum_level", reg.max_level_simulated <= lm, info=info, replay=rp)
+    base_sc = _scenario(ctx, crit, il, n0, lm, bound)
+    rp = (replay_loop_facts, lambda m: dict(base_sc(m), what="return"))
+    ctx.prove("C06.never_simulates_above_maximum_level", reg.max_level_simulated <= lm, info=info, replay=(replay_loop_facts, lambda m: dict(base_sc(m), what="above_max")))
     nlev = (len(stats.mc_statistics) if stats is not None else max(reg.samples) + 1 if reg.samples else il + 1)
     last_conv = crit.criteria_calls[-1][1] if crit.criteria_calls else False
     tested_levels = crit.criteria_calls[-1][0] if crit.criteria_calls else 0
@@ -212,6 +213,39 @@ def replay_exit(sc):
     finally:
         logging.getLogger().removeHandler(hnd)
     return bool(fell), f"initial_level={sc['initial_level']} N0={sc['n0']} level_max={sc['level_max']} answers={sc['ns']} {sc['conv']}: price() left the loop without a passing bias test below the maximum level (warning 'Initial number of Monte-Carlo paths is probably too low')"
+
+
+def replay_loop_facts(sc):
+    """real engine with the scenario's answers: highest level simulated, and whether the run returned on a passing bias test or at the
+    maximum level"""
+    import logging
+    from .c05_mlmc import run_scenario
+
+    fell = []
+
+    class H(logging.Handler):
+        def emit(self, record):
+            if "Initial number of Monte-Carlo paths" in record.getMessage():
+                fell.append(1)
+
+    hnd = H()
+    logging.getLogger().addHandler(hnd)
+    try:
+        try:
+            stats, reg, crit = run_scenario(sc)
+        except (ZeroDivisionError, PathAbort):
+            return False, "run did not complete"
+    finally:
+        logging.getLogger().removeHandler(hnd)
+    lm = sc["level_max"]
+    head = f"initial_level={sc['initial_level']} N0={sc['n0']} level_max={lm} answers={sc['ns']} {sc['conv']}: "
+    if sc.get("what") == "above_max":
+        return reg.max_level_simulated > lm, head + f"samples were simulated at level {reg.max_level_simulated}, above maximum_level = {lm}"
+    last_conv = crit.criteria_calls[-1][1] if crit.criteria_calls else False
+    tested = crit.criteria_calls[-1][0] if crit.criteria_calls else 0
+    proper = (last_conv or tested == lm + 1) and not fell
+    return (not proper), head + (f"price() returned with the last bias test {'passing' if last_conv else 'failing'} on {tested} level(s)"
+                                 + (" through the 'Initial number of Monte-Carlo paths is probably too low' exit" if fell else ""))
 
 
 def replay_sizes(sc):
